@@ -29,7 +29,27 @@ def run_scenarios(wd, scenarios, seed, procs=8):
             out.write(open(os.path.join(wd, p)).read())
 
 
-def run_family(c, prop, family, nquick):
+RAND_MAXOPS = 9
+
+
+def random_trees(c, wd, num, seed):
+    """random call trees: behaviours of specs/EvmCosmosRand.tla (TLC simulation); the simulation also checks on
+    the model that the intended design satisfies P on every tree, and a second run that the as-built machine
+    fails only in trees with a precompile call"""
+    scripts, r = tlc_scripts(wd, "EvmCosmosRand.tla", "EvmCosmosRand_sim.cfg", num, RAND_MAXOPS + 6, seed)
+    if r.error:
+        raise Infra("the intended design violates P on a random tree (specs/EvmCosmosRand.tla Intended):\n" + r.out[-3000:])
+    c.add_tlc("EvmCosmosRand_sim.cfg", r)
+    _, r2 = tlc_scripts(wd, "EvmCosmosRand.tla", "EvmCosmosRand_defect_comp.cfg", num, RAND_MAXOPS + 6, seed)
+    if r2.error:
+        raise Infra("as-built machine fails P in a tree without precompile call (ExplainedR):\n" + r2.out[-3000:])
+    c.add_tlc("EvmCosmosRand_defect_comp.cfg", r2)
+    if len(scripts) < num // 2:
+        raise Infra("too few random trees: %d" % len(scripts))
+    return scripts
+
+
+def run_family(c, prop, family, nquick, nrand=(0, 0)):
     quick = c.tier == "quick"
     build_harness()
     wd = scratch(prop)
@@ -47,31 +67,43 @@ def run_family(c, prop, family, nquick):
         # the identity / single-call scenarios are always run in full; the sample is drawn from the
         # multi-operation sequences (a scenario whose top-level body has more than two ops)
         rnd = random.Random(c.seed)
-        core = [x for x in scenarios if x["top"]["op"] == "pc" or len(x["top"]["body"]) <= 2]
-        rest = [x for x in scenarios if not (x["top"]["op"] == "pc" or len(x["top"]["body"]) <= 2)]
+        def is_core(x):
+            return x["top"]["op"] == "pc" or len(x["top"]["body"]) <= 2 or any(b["op"] == "call" and b["body"] for b in x["top"]["body"])
+        core = [x for x in scenarios if is_core(x)]
+        rest = [x for x in scenarios if not is_core(x)]
         scenarios = core + rnd.sample(rest, max(0, min(len(rest), nquick - len(core))))
-    run_scenarios(wd, scenarios, c.seed)
-    res, r = validate_trace(wd, "EvmCosmosTrace.tla", "EvmCosmosTrace.cfg", timeout=3000)
+    nr = nrand[0] if quick else nrand[1]
+    rand = random_trees(c, wd, nr, c.seed * 7919 + {"C02": 1, "C04": 2, "C05": 3}.get(prop, 0)) if nr else []
+    scenarios = scenarios + rand
+    run_scenarios(wd, scenarios, c.seed, procs=8 if quick else 14)
+    res, r = validate_trace(wd, "EvmCosmosTrace.tla", "EvmCosmosTrace.cfg", timeout=6000)
     n = count_lines(os.path.join(wd, "trace.ndjson"))
     if res["consumed"] != n:
         raise Infra("trace spec consumed %d of %d lines" % (res["consumed"], n))
     skipped = 0
-    pcok = 0
+    nrand_run = nrand_ok = 0
     with open(os.path.join(wd, "trace.ndjson")) as fh:
         for line in fh:
             o = json.loads(line)
             if o["ev"] == "skip":
                 skipped += 1
                 continue
+            if o.get("src") == "rand":
+                nrand_run += 1
+                nrand_ok += 0 if o["res"]["failed"] or o["res"]["code"] != 0 else 1
             if len(c.samples) < 3:
                 c.samples.append({"top": o["top"], "res": {k: o["res"][k] for k in ("code", "failed", "gasUsed", "fee")},
                                   "supply_pre": o["pre"]["supply"], "supply_post": o["post"]["supply"], "bank_pre": o["pre"]["bank"], "bank_post": o["post"]["bank"]})
     if skipped > len(scenarios) // 10:
         raise Infra("%d of %d scenarios could not be set up" % (skipped, len(scenarios)))
-    if res["txok"] < len(scenarios) // 3:
+    if res["txok"] < (len(scenarios) - len(rand)) // 3:
         raise Infra("vacuous run: only %d of %d transactions succeeded" % (res["txok"], len(scenarios)))
     c.traces = n - skipped
+    if rand and nrand_ok < len(rand) // 4:
+        raise Infra("vacuous run: only %d of %d random trees succeeded" % (nrand_ok, len(rand)))
     c.extra.update({"scenario_space": total, "scenarios_executed": len(scenarios), "scenarios_skipped": skipped,
+                    "random_trees_generated": len(rand), "random_trees_judged": nrand_run, "random_trees_succeeded": nrand_ok,
+                    "random_tree_bounds": "specs/EvmCosmosRand.tla: <= %d ops, depth <= 3, every staking/distribution/authorization/ICS-20 method, REVERT/INVALID/SELFDESTRUCT frame ends, top-level call or contract creation" % RAND_MAXOPS,
                     "transactions_succeeded": res["txok"], "exhaustive": (not quick) or total <= nquick,
                     "conformance_divergence_count": len(res["div"]), "conformance_divergences": res["div"][:10]})
 
@@ -83,7 +115,8 @@ def run_family(c, prop, family, nquick):
     for s, v in mine.items():
         o = lines[v["line"] - 1]
         path = save_replay(prop, "%s-l%d" % (c.seed, v["line"]), {"property": prop, "driver": "evmc", "signature": s,
-                           "scenario": {"cfg": o["cfg"], "setup": json.loads(o["setupJson"]), "top": o["top"]}})
+                           "scenario": {"cfg": o["cfg"], "setup": json.loads(o["setupJson"]), "top": o["top"],
+                                        "fam": "" if o.get("src", "script") == "script" else o["src"]}})
         c.replays[s] = path
     # reproduce the signatures that are not listed as known, alone, before they count
     known = {k["signature"] for k in load_known() if k["property"] == prop and k.get("status", "known") == "known"}
